@@ -123,10 +123,22 @@ var specials = []special{
 
 var maxCountInputs = [][]byte{
 	{0xFF, 0xFF}, {0x7F, 0xFF}, {0x00, 0x0F, 0xFF, 0xFF}, {0x00, 0x10, 0x00, 0x00}, {0x00, 0x00, 0xFF, 0xFF},
-	nw().i32(2).i32(4).i32(0).i32(1 << 20).b,               // RESULT Rows, no metadata, 0 columns, 2^20 rows
-	nw().i32(2).i32(4).i32(1 << 20).i32(1).b,               // RESULT Rows, no metadata, 2^20 columns, 1 row
-	nw().i32(2).i32(0).i32(1 << 20).b,                      // RESULT Rows, 2^20 column specs
-	nw().u8(0).u16(0xFFFF).b,                               // BATCH with 65535 children
+	nw().i32(2).i32(4).i32(0).i32(1 << 20).b, // RESULT Rows, no metadata, 0 columns, 2^20 rows
+	nw().i32(2).i32(4).i32(1 << 20).i32(1).b, // RESULT Rows, no metadata, 2^20 columns, 1 row
+	nw().i32(2).i32(0).i32(1 << 20).b,        // RESULT Rows, 2^20 column specs
+	nw().u8(0).u16(0xFFFF).b,                 // BATCH with 65535 children
+	// negative counts, deterministically (the sweeps find them too, base permitting)
+	nw().i32(2).i32(4).i32(-1).i32(1).b,                                               // RESULT Rows, NO_METADATA, column count -1, 1 row
+	nw().i32(2).i32(4).i32(1).i32(-1).b,                                               // RESULT Rows, NO_METADATA, 1 column, rows count -1
+	nw().i32(2).i32(0).i32(-1).b,                                                      // RESULT Rows with metadata, column count -1
+	nw().i32(2).i32(1).i32(-2).str("").str("").b,                                      // RESULT Rows, global spec, column count -2
+	nw().i32(4).u16(1).u8(0).i32(0).i32(-1).i32(-1).b,                                 // RESULT Prepared (v4): variables column count -1, pk count -1
+	nw().i32(4).u16(1).u8(0).i32(0).i32(0).i32(0).i32(4).i32(-1).b,                    // RESULT Prepared (v4): result metadata column count -1
+	nw().i32(0x1300).str("").u16(1).i32(1).i32(1).i32(-1).b,                           // READ_FAILURE (v5/DSE): reason map length -1
+	nw().i32(0x1500).str("").u16(1).i32(1).i32(1).i32(-3).b,                           // WRITE_FAILURE (v5/DSE): reason map length -3
+	nw().i32(0x1300).str("").u16(1).i32(1).i32(1).i32(1).u8(4).raw(ip4).u16(7).b,      // READ_FAILURE: reason code 7 (unknown)
+	nw().i32(0x1300).str("").u16(1).i32(1).i32(1).i32(1).u8(4).raw(ip4).u16(0xFFFF).b, // READ_FAILURE: reason code 0xFFFF
+	nw().i32(-1).b, nw().i32(-2).b, nw().i32(-1).i32(-1).b, // [int] -1 / -2 at the start of anything
 	nw().i32(0x1300).str("m").u16(1).i32(1).i32(1 << 20).b, // READ_FAILURE v5: reason map of 2^20 entries
 }
 
